@@ -81,6 +81,7 @@ type Path struct {
 	concreteMode bool
 	observations []string
 	store      map[string]interface{}
+	mapOrder   string
 	wantSample bool
 	sampleVals []ReplayVal
 	concSeed   uint64
@@ -94,6 +95,18 @@ type ufApp struct {
 }
 
 func (p *Path) warn(msg string) {
+	if strings.HasPrefix(msg, "init of ") {
+		// partial initialisation of standard-library packages is expected
+		// (runtime hooks, reflection); only report third-party/repo packages
+		rest := msg[len("init of "):]
+		first := rest
+		if i := strings.IndexAny(rest, "/ :"); i >= 0 {
+			first = rest[:i]
+		}
+		if !strings.Contains(first, ".") {
+			return
+		}
+	}
 	if p.warnings == nil {
 		p.warnings = map[string]bool{}
 	}
@@ -469,6 +482,9 @@ func (p *Path) ensureInit(fr *frame, pkg *ssa.Package) {
 }
 
 func (p *Path) mapPolicy() string {
+	if p.mapOrder != "" {
+		return p.mapOrder
+	}
 	return p.P.cfg.MapOrder
 }
 
